@@ -294,6 +294,15 @@ TRANSFORMS = [("comments", t_comments), ("blank", t_blank), ("name", t_name), ("
               ("respace", t_respace), ("unindent-context", t_unindent_context), ("space-after-marker", t_space_after_marker), ("rewrap", t_rewrap), ("context-pair", t_context_pair), ("widen", t_widen)]
 
 
+# a line of a raw string literal that goes over several lines, as a '-'/'+' pair and as a context line (known finding F33:
+# the space of a context line stays in the Go text)
+EXTRA += [
+    {"name": "x_rawstring_line", "patches": [("p.patch", b"@@\n@@\n-run(`a\n+run(`a\n-b`)\n+b`)\n-old()\n+new()\n")],
+     "inputs": {"t.go": b"package x\n\nfunc do() {\n\trun(`a\nb`)\n\told()\n}\n"},
+     "variants": [("context-line-in-raw-string", b"@@\n@@\n run(`a\n b`)\n-old()\n+new()\n")]},
+]
+
+
 def main():
     ck = vlib.Check("C13")
     coq_ok, coq_log = vlib.build()
@@ -309,6 +318,10 @@ def main():
             continue
         jobs.append((c, "original", text))
         jobs.append((c, "identity", render(chs)))
+        for vn, vp in c.get("variants", []):
+            jobs.append((c, vn, vp))
+        if c.get("variants"):
+            continue        # (the generic transformations re-space and re-wrap Go code; inside a raw string that is not layout)
         for tn, tf in TRANSFORMS:
             for rep in range((3 if thorough else 1) * (4 if tn == "widen" else 1)):
                 v = tf(ck.rng, chs)
@@ -361,7 +374,8 @@ def main():
                 ck.violation("layout variant (%s) of %s gives a syntactically different result on %s" % (vn, c["name"], fn),
                              dict(rep, file=fn, input=c["inputs"][fn].decode("utf-8", "replace"),
                                   out_original=unb64(a["api_out"]).decode("utf-8", "replace") if a.get("api_out") else a["api_err"],
-                                  out_variant=unb64(b["api_out"]).decode("utf-8", "replace") if b.get("api_out") else b["api_err"]))
+                                  out_variant=unb64(b["api_out"]).decode("utf-8", "replace") if b.get("api_out") else b["api_err"]),
+                             finding_class="context-line-in-raw-string" if (c["name"] == "x_rawstring_line" and vn in ("context-line-in-raw-string", "context-pair")) else None)
         # descriptions: '#' lines directly above each header, nothing else
         want = expected_descriptions(p)
         got = {}
